@@ -41,9 +41,15 @@ class Step:
         self.impl_raw = impl_raw
         self.model_raw = model_raw
         if self.op in ("pure", "deposit", "fault", "swapctl", "setup"):
-            # single-token results (may contain '='): compared as a whole
+            # single-token results (may contain '='): compared as a whole; the model may append " #<guard tag>" for the evidence
+            tag = None
+            if " #" in model_raw:
+                model_raw, tag = model_raw.split(" #", 1)
+                self.model_raw = model_raw
             self.impl = {"_": impl_raw}
             self.model = {"_": model_raw}
+            if tag:
+                self.model["tag"] = tag
         else:
             self.impl = kv(impl_raw)
             self.model = kv(model_raw)
